@@ -4,6 +4,7 @@ import (
 	sdk "github.com/cosmos/cosmos-sdk/types"
 	autytypes "github.com/cosmos/cosmos-sdk/x/auth/types"
 
+	fxtypes "github.com/functionx/fx-core/v8/types"
 	"github.com/functionx/fx-core/v8/x/crosschain/types"
 )
 
@@ -60,7 +61,11 @@ func InitGenesis(ctx sdk.Context, k Keeper, state *types.GenesisState) {
 
 	for _, bridgeToken := range state.BridgeTokens {
 		// 0x26 0x27
-		k.AddBridgeToken(ctx, bridgeToken.Token, bridgeToken.Denom)
+		bridgeDenom := types.NewBridgeDenom(k.moduleName, bridgeToken.Token)
+		k.AddBridgeToken(ctx, bridgeToken.Denom, bridgeDenom)
+		if bridgeToken.Denom == fxtypes.DefaultDenom {
+			k.AddBridgeToken(ctx, bridgeDenom, fxtypes.DefaultDenom)
+		}
 	}
 	for i := 0; i < len(state.BatchConfirms); i++ {
 		confirm := state.BatchConfirms[i]
